@@ -67,21 +67,25 @@ func vValue(o vOp, i int) string {
 func init() {
 	vExtraOps["opcodes"] = func(r *vRunner, o vOp) {
 		a, b := vValue(o, 0), vValue(o, 1)
-		fmt.Fprintf(r.w, "op opcodes a=%s b=%s\n", vhex([]byte(a)), vhex([]byte(b)))
 		aLines := splitNewlines(a)
 		bLines := splitNewlines(b)
 		big := len(aLines) + len(bLines) + 1
 		all := difflib.NewMatcher(splitNewlines(a), splitNewlines(b)).GetGroupedOpCodes(big)
 		groups := difflib.NewMatcher(aLines, bLines).GetGroupedOpCodes(context)
-		fmt.Fprintf(r.w, "opcodes %d na=%d nb=%d all=%s groups=%s\n",
+		// the script the library chose (iall) and its hunks (igroups) are handed to the model, which CHECKS them (a valid
+		// edit script? the hunks of that script?) instead of demanding its own matcher's choice
+		fmt.Fprintf(r.w, "op opcodes a=%s b=%s iall=%s igroups=%s\n", vhex([]byte(a)), vhex([]byte(b)), vGroupsString(all), vGroupsString(groups))
+		fmt.Fprintf(r.w, "opcodes %d na=%d nb=%d valid=1 hunks=1 all=%s groups=%s\n",
 			r.idx, len(aLines), len(bLines), vGroupsString(all), vGroupsString(groups))
 	}
 
 	vExtraOps["diff"] = func(r *vRunner, o vOp) {
 		a, b := vValue(o, 0), vValue(o, 1)
 		name := string(vunhex(o.Path))
-		fmt.Fprintf(r.w, "op diff a=%s b=%s name=%s line=%d colour=%s\n",
-			vhex([]byte(a)), vhex([]byte(b)), vhex([]byte(name)), o.Count, vb(o.Colour))
+		aL, bL := splitNewlines(a), splitNewlines(b)
+		all := difflib.NewMatcher(aL, bL).GetGroupedOpCodes(len(aL) + len(bL) + 1)
+		fmt.Fprintf(r.w, "op diff a=%s b=%s name=%s line=%d colour=%s iall=%s\n",
+			vhex([]byte(a)), vhex([]byte(b)), vhex([]byte(name)), o.Count, vb(o.Colour), vGroupsString(all))
 		saved := colors.NOCOLOR
 		colors.NOCOLOR = !o.Colour
 		report := prettyDiff(a, b, name, o.Count)
@@ -90,6 +94,10 @@ func init() {
 		if report == "" {
 			empty = "1"
 		}
-		fmt.Fprintf(r.w, "diff %d empty=%s report=%s\n", r.idx, empty, vhex([]byte(report)))
+		own := "*"
+		if !o.Colour {
+			own = vhex([]byte(report))
+		}
+		fmt.Fprintf(r.w, "diff %d empty=%s valid=1 report=%s own=%s\n", r.idx, empty, vhex([]byte(report)), own)
 	}
 }
